@@ -86,6 +86,7 @@ RULES = [
  ('drop the numpy import which the repair of floats', 'C03', 'resave-content-differs (follow-up of 0705fed: unused import)'),
  ('whole column reference onto the range of an array formula can be saved and loaded', 'C03', 'load-raises/same/{yml,json} + save-raises/pkl (=SUM(C:C) over the target of {=A1:A3*2}: AssertionError, the range was built twice)'),
  ('empty element of an array formula shows as 0 in the range', 'C05', 'array-formula-range-shows-blank-where-its-cell-shows-0 ({=A1:A3} with A2 empty: the cell D2 gave 0, the element of D1:D3 gave None)'),
+ ('sheet name is quoted in a formula unless it is made of letters', 'C05', 'cell-raises-but-range-evaluates/cse (the member cells of an array formula on a sheet named Costs+1,2 / P&L / 2024: =index(Costs+1,2!C7:D8,1,1) is read as an expression)'),
  ('an array and an error value', 'C13', 'array-formula-member-not-pointwise/array-with-error-valued-scalar'),
 ]
 
